@@ -43,4 +43,17 @@ PROPS = {
                 "Non-trivial: old != new and (>=2 hunks, or a side lacks its final newline, or a line occurs on both sides more than once, or a diff look-alike line is present); for the exhaustive scope every differing pair counts (all have duplicates or newline variants). Distinct by (old,new) bytes.",
         "assumptions": ["file names passed to Diff contain no newline (names are fixed to old/new)"],
     },
+    "C19": {
+        "pkg": "c19_build",
+        "level": "exploration",
+        "technique": "small-scope exhaustive enumeration of file names + rapid-generated +build blocks + native fuzzing; oracle = reference written from the statement, cross-checked against go/build/constraint and go/build.Context.MatchFile",
+        "level_text": "Every file name of a prefix and up to four segments from a 13-token vocabulary (plus every known OS/arch token pair) under 16 tag sets, and random leading comment blocks with well-formed and malformed +build lines under random tag sets, are compared with a reference implementation of the stated rules; on the sub-domain where Go's own go/build and go/build/constraint define the same rules the results are also compared with them.",
+        "level_note": "Trusted: the reference in harness/c19_build (refShouldBuild/refMatchFile) and Go 1.23's go/build, go/build/constraint on the sub-domain excluding implicit tags (cgo, gc, unix, go1.N), ios/illumos/wasip1 and malformed terms.",
+        "shards": {"quick": 1, "thorough": 16},
+        "fuzz": [{"name": "FuzzContent", "seconds": 90}],
+        "rule": "names: prefix in {x,'',linux,a.b,x_,Foo} x 0-3 (quick) / 0-4 (thorough) segments from {linux android windows darwin js amd64 arm64 386 wasm test foo unix ''} x extension {.go,_test.go,.s,'',.x.go} x 16 tag sets incl. android+arm64, {}, '*', '*'+ignore (exhaustive); all pairs of known OS/arch tokens as suffix. "
+                "content: 0-7 leading lines drawn from +build lines (0-4 options of 1-3 comma terms, negations, malformed terms, Unicode tags, //+build, +buildx, indented, CRLF), blank lines, plain comments, non-comment lines; then EOF, an unterminated +build line, or [blank] package clause; tags = OS+arch+drawn extras, '*', '*'+ignore. "
+                "Non-trivial: names whose last (or last-before-_test) segment is a known OS/arch; contents with >=1 counted +build line that has >=2 options, a comma term or a negation. Distinct by (name|content, tags).",
+        "assumptions": ["'known' OS/arch = the package's exported KnownOS/KnownArch tables", "MatchFile with tags['*'] accepts every name (the 'ignore' exclusion applies to content only)"],
+    },
 }
